@@ -4,6 +4,7 @@ import (
 	"bytes"
 	"encoding/binary"
 	"errors"
+	"fmt"
 	"github.com/bolkedebruin/rdpgw/cmd/rdpgw/transport"
 	"io"
 	"log"
@@ -22,43 +23,40 @@ type RedirectFlags struct {
 	EnableAll  bool
 }
 
-// readMessage parses and defragments a packet from a Transport. It returns
-// at most the bytes that have been reported by the packet
-func readMessage(in transport.Transport) (pt int, n int, msg []byte, err error) {
-	fragment := false
-	index := 0
-	buf := make([]byte, 4096)
+// maxPacketSize is the largest packet the gateway is willing to reassemble. The
+// biggest packets of the protocol carry a 16 bit length prefixed blob, so this
+// leaves ample room while bounding what a client can make a tunnel buffer.
+const maxPacketSize = 128 * 1024
 
+var (
+	errFragment    = errors.New("data incomplete, fragment received")
+	errInvalidSize = errors.New("invalid packet size")
+)
+
+// readMessage parses and defragments a packet from a Transport. Bytes that
+// have been read but do not belong to the returned packet are kept in pending
+// and are used first on the next call, so packet boundaries only depend on the
+// length fields and not on how the transport happened to deliver the bytes.
+// It returns at most the bytes that have been reported by the packet
+func readMessage(in transport.Transport, pending *[]byte) (pt int, n int, msg []byte, err error) {
 	for {
+		packetType, sz, packet, err := readHeader(*pending)
+		if err == nil {
+			msg = make([]byte, len(packet))
+			copy(msg, packet)
+			*pending = (*pending)[sz:]
+			return int(packetType), int(sz), msg, nil
+		}
+		if !errors.Is(err, errFragment) {
+			// header is corrupted
+			return 0, 0, []byte{0, 0}, err
+		}
+
 		size, pkt, err := in.ReadPacket()
 		if err != nil {
 			return 0, 0, []byte{0, 0}, err
 		}
-
-		// check for fragments
-		var pt uint16
-		var sz uint32
-		var msg []byte
-
-		if !fragment {
-			pt, sz, msg, err = readHeader(pkt[:size])
-			if err != nil {
-				fragment = true
-				index = copy(buf, pkt[:size])
-				continue
-			}
-			index = 0
-		} else {
-			fragment = false
-			pt, sz, msg, err = readHeader(append(buf[:index], pkt[:size]...))
-			// header is corrupted even after defragmenting
-			if err != nil {
-				return 0, 0, []byte{0, 0}, err
-			}
-		}
-		if !fragment {
-			return int(pt), int(sz), msg, nil
-		}
+		*pending = append(*pending, pkt[:size]...)
 	}
 }
 
@@ -79,14 +77,17 @@ func createPacket(pktType uint16, data []byte) (packet []byte) {
 func readHeader(data []byte) (packetType uint16, size uint32, packet []byte, err error) {
 	// header needs to be 8 min
 	if len(data) < 8 {
-		return 0, 0, nil, errors.New("header too short, fragment likely")
+		return 0, 0, nil, fmt.Errorf("header too short: %w", errFragment)
 	}
 	r := bytes.NewReader(data)
 	binary.Read(r, binary.LittleEndian, &packetType)
 	r.Seek(4, io.SeekStart)
 	binary.Read(r, binary.LittleEndian, &size)
+	if size < 8 || size > maxPacketSize {
+		return packetType, size, nil, errInvalidSize
+	}
 	if len(data) < int(size) {
-		return packetType, size, data[8:], errors.New("data incomplete, fragment received")
+		return packetType, size, data[8:], errFragment
 	}
 	return packetType, size, data[8:size], nil
 }
